@@ -220,9 +220,13 @@ def leaf_arm_predicate(t, fn, R, what):
                 return a, p['var'], arms
     return None, None, None
 
-def rule_X2(F, R):
+def rule_X2(F, R, parts=('table', 'dot')):
     binc, lib = F.bin(), F.lib()
     FILTERS = ['True', 'False', 'Any']
+    if 'table' in parts: _x2_table(F, R, binc, FILTERS)
+    if 'dot' in parts: _x2_dot(F, R, lib, FILTERS)
+
+def _x2_table(F, R, binc, FILTERS):
     # (a) truth-table rows
     fn = 'rsbdd::print_truth_table_recursive'
     t = binc.thir.get(fn)
@@ -259,6 +263,8 @@ def rule_X2(F, R):
         ok = printing == ['True']
         R.count('X2:vars-printer-arms'); R.obligation(ok, 'X2 -v')
         if not ok: R.violation('%s / X2 / printing arms' % fn, 'X2', '-v must print exactly at the True leaf; printing arms: %s' % printing)
+
+def _x2_dot(F, R, lib, FILTERS):
     # (c) dot: declared leaf <=> same predicate; edge into a leaf emitted <=> that leaf declared
     G = 'rsbdd::bdd_io::BDDGraph::'
     t = lib.thir.get(G + 'nodes_recursive')
